@@ -3,6 +3,7 @@ package planner
 import (
 	"crypto/sha256"
 	"encoding/json"
+	"strings"
 
 	"github.com/buildbuildio/pebbles/common"
 	"github.com/buildbuildio/pebbles/format"
@@ -98,7 +99,29 @@ func (s *QueryPlanStep) SetComputedValues(ctx *PlanningContext) *QueryPlanStep {
 	for i, then := range s.Then {
 		s.Then[i] = then.SetComputedValues(ctx)
 	}
+	s.Then = mergeEqualSteps(s.Then)
 	return s
+}
+
+// mergeEqualSteps keeps one of several steps that send the same query for the same objects to the same service
+// (a selection spread over the implementations of nested interfaces yields them): executed twice, their
+// results would be merged twice.
+func mergeEqualSteps(steps []*QueryPlanStep) []*QueryPlanStep {
+	if len(steps) < 2 {
+		return steps
+	}
+	var res []*QueryPlanStep
+	index := make(map[string]*QueryPlanStep, len(steps))
+	for _, step := range steps {
+		key := step.URL + "\x00" + step.ParentType + "\x00" + strings.Join(step.InsertionPoint, "\x00") + "\x00" + step.QueryString
+		if same, ok := index[key]; ok {
+			same.Then = mergeEqualSteps(append(same.Then, step.Then...))
+			continue
+		}
+		index[key] = step
+		res = append(res, step)
+	}
+	return res
 }
 
 func (s *QueryPlanStep) setVariablesList() *QueryPlanStep {
